@@ -661,26 +661,82 @@ func c03FactoryOrder(e *Env) {
 		}
 	}
 	r.Check(okPre, "R03.2", tokenRel+".FuncRegisterer.RegisterFunc#prepends", "a registered function is added through Prepend")
-	// Prepend puts the new strategy first
+	// Prepend puts the new strategy first: the slice stored back is [<the parameter>, <the old elements>…],
+	// however it is assembled (append([]T{s}, old...), or make + append + append)
 	if pf := e.P.Func(tokenRel, "StrategyFactory.Prepend"); pf != nil {
-		okFirst := false
-		for _, c := range callsIn(pf, false) {
-			if callName(c.Common()) == "builtin.append" {
-				// append([]T{s}, f.strategies...)
-				if sl, ok := c.Common().Args[0].(*ssa.Slice); ok {
-					if al, ok := sl.X.(*ssa.Alloc); ok {
-						for _, ref := range *al.Referrers() {
-							if ia, ok := ref.(*ssa.IndexAddr); ok {
-								for _, r2 := range *ia.Referrers() {
-									if st, ok := r2.(*ssa.Store); ok {
-										if _, isParam := st.Val.(*ssa.Parameter); isParam {
-											okFirst = true
-										}
-									}
-								}
-							}
+		type part struct {
+			spread bool
+			v      ssa.Value
+		}
+		var seqOf func(v ssa.Value, d int) ([]part, bool)
+		arrayElems := func(sl *ssa.Slice) ([]part, bool) {
+			al, ok := sl.X.(*ssa.Alloc)
+			if !ok {
+				return nil, false
+			}
+			byIdx := map[int64]ssa.Value{}
+			for _, ref := range *al.Referrers() {
+				if ia, ok := ref.(*ssa.IndexAddr); ok {
+					k, _ := constInt(ia.Index)
+					for _, r2 := range *ia.Referrers() {
+						if st, ok := r2.(*ssa.Store); ok {
+							byIdx[k] = st.Val
 						}
 					}
+				}
+			}
+			var out []part
+			for i := int64(0); i < int64(len(byIdx)); i++ {
+				out = append(out, part{false, byIdx[i]})
+			}
+			return out, true
+		}
+		seqOf = func(v ssa.Value, d int) ([]part, bool) {
+			if d > 6 {
+				return nil, false
+			}
+			switch x := v.(type) {
+			case *ssa.MakeSlice:
+				if k, ok := constInt(x.Len); ok && k == 0 {
+					return nil, true
+				}
+			case *ssa.Const:
+				if x.IsNil() {
+					return nil, true
+				}
+			case *ssa.Slice:
+				return arrayElems(x)
+			case *ssa.Call:
+				if bi, ok := x.Call.Value.(*ssa.Builtin); ok && bi.Name() == "append" && len(x.Call.Args) == 2 {
+					head, ok := seqOf(x.Call.Args[0], d+1)
+					if !ok {
+						return nil, false
+					}
+					if sl, isSl := x.Call.Args[1].(*ssa.Slice); isSl {
+						if el, ok := arrayElems(sl); ok {
+							return append(head, el...), true
+						}
+					}
+					return append(head, part{true, x.Call.Args[1]}), true
+				}
+			}
+			return nil, false
+		}
+		okFirst := false
+		for _, b := range pf.Blocks {
+			for _, ins := range b.Instrs {
+				st, ok := ins.(*ssa.Store)
+				if !ok {
+					continue
+				}
+				fa, ok := st.Addr.(*ssa.FieldAddr)
+				if !ok || fieldName(fa) != "strategies" {
+					continue
+				}
+				if parts, ok := seqOf(st.Val, 0); ok && len(parts) == 2 {
+					_, isParam := parts[0].v.(*ssa.Parameter)
+					old := parts[1].spread && derivesFromField(parts[1].v, "strategies", 0)
+					okFirst = isParam && !parts[0].spread && old
 				}
 			}
 		}
@@ -702,22 +758,18 @@ func stepFirstMatch(e *Env, rule, rel, name, method string) {
 		e.R.Undecide(rule, key, "anchor not found")
 		return
 	}
-	sup := findInvokes(fn, "Supports", false)
 	cr := findInvokes(fn, method, false)
-	ok := len(sup) == 1 && len(cr) == 1
+	ok := len(cr) == 1 && handledAfterSupports(fn, cr[0])
 	if ok {
-		// the create/resolve call is behind the true edge of Supports on the same receiver and argument
-		ok = sup[0].Common().Value == cr[0].Common().Value && sup[0].Common().Args[0] == cr[0].Common().Args[0]
-		var iff *ssa.If
-		for _, ref := range *sup[0].Value().Referrers() {
-			if x, isIf := ref.(*ssa.If); isIf {
-				iff = x
-			}
+		// the strategies are tried in slice order and the first supporting one decides: one Supports call in the
+		// unit, inside a loop that walks the slice upwards; once a strategy was asked to handle the value the
+		// loop is not re-entered (a failing strategy does not hand the value on to a later, laxer one)
+		var sup []ssa.CallInstruction
+		for _, f := range unitFns(fn, 1) {
+			sup = append(sup, findInvokes(f, "Supports", false)...)
 		}
-		ok = ok && iff != nil && edgeDominates(iff.Block(), true, cr[0])
-		// and its verdict is final: once a strategy was asked to handle the value the loop is not re-entered
-		// (a failing strategy does not hand the value on to a later, laxer one)
-		if ok && reach(cr[0].Block(), false)[sup[0].Block()] {
+		ok = len(sup) == 1
+		if ok && sup[0].Parent() == fn && reach(cr[0].Block(), false)[sup[0].Block()] {
 			ok = false
 		}
 	}
@@ -987,6 +1039,49 @@ func resolverClass(e *Env, typeName string) argClass {
 		}
 		return true
 	})
+	// `return isStringWithPrefix(v, someRegex)`: a shared predicate of the package that asserts the string and
+	// matches the regular expression it is given
+	if !asserts && len(fd.Body.List) == 1 {
+		if rs, ok := fd.Body.List[0].(*ast.ReturnStmt); ok && len(rs.Results) == 1 {
+			if call, ok := ast.Unparen(rs.Results[0]).(*ast.CallExpr); ok && len(call.Args) == 2 {
+				if callee, ok := load.Callee(info, call).(*types.Func); ok && callee.Pkg() == pk.Types {
+					if hd, _ := e.P.DeclOf(callee); hd != nil && hd.Body != nil && len(hd.Type.Params.List) >= 1 {
+						hAssert, hMatchParam := false, false
+						var reParam types.Object
+						i := 0
+						for _, f := range hd.Type.Params.List {
+							for _, n := range f.Names {
+								if i == 1 {
+									reParam = info.ObjectOf(n)
+								}
+								i++
+							}
+						}
+						ast.Inspect(hd.Body, func(n ast.Node) bool {
+							switch x := n.(type) {
+							case *ast.TypeAssertExpr:
+								if t := info.TypeOf(x.Type); t != nil && isStringType(t) {
+									hAssert = true
+								}
+							case *ast.CallExpr:
+								if calleeName(load.Callee(info, x)) == "regexp.(Regexp).MatchString" {
+									if se, ok := ast.Unparen(x.Fun).(*ast.SelectorExpr); ok {
+										if id, ok := ast.Unparen(se.X).(*ast.Ident); ok && info.ObjectOf(id) == reParam {
+											hMatchParam = true
+										}
+									}
+								}
+							}
+							return true
+						})
+						if id, ok := ast.Unparen(call.Args[1]).(*ast.Ident); ok && hAssert && hMatchParam {
+							return argClass{kind: "prefix", arg: id.Name}
+						}
+					}
+				}
+			}
+		}
+	}
 	switch {
 	case asserts && prim && negAssert:
 		return argClass{kind: "nonstring"}
@@ -1129,27 +1224,47 @@ func c03ToExpr(e *Env) {
 	delim, _ := e.P.ConstString(tokenRel, "Delimiter")
 	// two comparisons with the delimiter, a length test, and the result slice [1 : len-1]
 	cmp, lenTest, slice := 0, false, false
+	var seq ssa.Value
+	// the comparison with the delimiter may live in a one-line predicate of the package (isDelimiter(r))
+	cmpIn := func(f *ssa.Function) int {
+		n := 0
+		for _, b := range f.Blocks {
+			for _, ins := range b.Instrs {
+				if x, ok := ins.(*ssa.BinOp); ok && (x.Op == token.NEQ || x.Op == token.EQL) && isStringType(x.X.Type()) {
+					if s, ok := constString(x.Y); ok && s == delim {
+						n++
+					}
+				}
+			}
+		}
+		return n
+	}
+	cmp = cmpIn(fn)
+	for _, c := range callsIn(fn, false) {
+		if g := c.Common().StaticCallee(); g != nil && g.Pkg == fn.Pkg && len(g.Blocks) == 1 && cmpIn(g) == 1 {
+			cmp++ // one call of the predicate = one comparison
+		}
+	}
 	for _, b := range fn.Blocks {
 		for _, ins := range b.Instrs {
-			switch x := ins.(type) {
-			case *ssa.BinOp:
-				if (x.Op == token.NEQ || x.Op == token.EQL) && isStringType(x.X.Type()) {
-					if s, ok := constString(x.Y); ok && s == delim {
-						cmp++
-					}
-				}
-				if x.Op == token.LSS {
-					if k, ok := constInt(x.Y); ok && k == 2 {
-						lenTest = true
-					}
-				}
-			case *ssa.Slice:
+			if x, ok := ins.(*ssa.Slice); ok {
 				if lo, ok := constInt(x.Low); ok && lo == 1 && x.High != nil {
 					if bo, ok := x.High.(*ssa.BinOp); ok && bo.Op == token.SUB {
 						if k, ok := constInt(bo.Y); ok && k == 1 {
 							slice = true
+							seq = x.X
 						}
 					}
+				}
+			}
+		}
+	}
+	if seq != nil {
+		// some branch separates len < 2 from len >= 2 (written as len < 2, len-1 >= 1, …)
+		for _, b := range fn.Blocks {
+			if iff, ok := b.Instrs[len(b.Instrs)-1].(*ssa.If); ok {
+				if edgeImpliesLen(iff.Cond, true, seq, 1) || edgeImpliesLen(iff.Cond, false, seq, 1) {
+					lenTest = true
 				}
 			}
 		}
